@@ -363,11 +363,13 @@ class Recorder:
                 tc = bool(m.tc)
                 # a probe with a QM question among its questions: that part is answered by multicast at once, whatever was multicast before
                 probe = bool(m.authorities) and any(not (q.cls & 0x8000) for q in m.questions)
+                qlist = [[self.it.nb(q.name.text), q.type, 1 if q.cls & 0x8000 else 0] for q in m.questions] if not m.authorities else []
             except wire.WireError:
                 qu = tc = probe = False
+                qlist = []
             if qu and mode == 'allnq':
                 return 1             # every datagram except queries with a QU question (whose copies are answered, finding D9)
-            self.dup_log.append({'t': self.net.now(), 'qu': qu, 'tc': tc, 'probe': probe, 'legacy': port != 5353, 'n': self.inj_count})
+            self.dup_log.append({'t': self.net.now(), 'qu': qu, 'tc': tc, 'probe': probe, 'legacy': port != 5353, 'n': self.inj_count, 'qs': qlist})
             return 2
         return 1
 
